@@ -22,7 +22,12 @@ func runC31(c *simkit.Ctx) {
 	c.Bubble(func() {
 		t := c.Tape
 		n, cf := 4, 1
-		if t.Prob(1, 8) {
+		switch t.Pick(10, 2, 2, 2) {
+		case 1:
+			n = 5 // quorum N-(N-1)/3 = 4
+		case 2:
+			n = 6 // quorum 5
+		case 3:
 			n, cf = 7, 2
 		}
 		o := vbftOpts{N: n, C: cf, MaxSteps: 7000, TargetHeight: uint32(2 + t.Choose(2)), Byz: -1}
